@@ -69,10 +69,10 @@ C15OK(rec) ==
 
 VARIABLE i
 Judge(rec) ==
-    /\ (Level # 2 \/ C01OK(rec) \/ PrintT(<<"L2FAIL", "C01", rec.id>>))
-    /\ (Level # 2 \/ C02OK(rec) \/ PrintT(<<"L2FAIL", "C02", rec.id>>))
-    /\ (Level # 2 \/ C15OK(rec) \/ PrintT(<<"L2FAIL", "C15", rec.id>>))
-    /\ (Level # 1 \/ StepOK(rec) \/ PrintT(<<"L1DRIFT", "tree", rec.id>>))
+    /\ (IF Level # 2 \/ C01OK(rec) THEN TRUE ELSE PrintT(<<"L2FAIL", "C01", rec.id>>))
+    /\ (IF Level # 2 \/ C02OK(rec) THEN TRUE ELSE PrintT(<<"L2FAIL", "C02", rec.id>>))
+    /\ (IF Level # 2 \/ C15OK(rec) THEN TRUE ELSE PrintT(<<"L2FAIL", "C15", rec.id>>))
+    /\ (IF Level # 1 \/ StepOK(rec) THEN TRUE ELSE PrintT(<<"L1DRIFT", "tree", rec.id>>))
 TInit == i = 1
 TNext == i < Len(Recs) /\ i' = i + 1 /\ Judge(Recs[i + 1])
 TSpec == TInit /\ [][TNext]_i
